@@ -135,7 +135,7 @@ func c10One(c *fw.Ctx, id string, i int) {
 	}
 	// a second package with its own file (target of cross-package moves)
 	otherSpec := &gen.FileSpec{Name: "o0.go", Naming: map[string]string{}, Snippets: []int{r.Intn(len(gen.Snippets)), r.Intn(len(gen.Snippets))}}
-	for _, k := range []string{"A", "B", "C", "D", "E"} {
+	for _, k := range []string{"A", "B", "C", "D", "E", "F"} {
 		switch r.Intn(3) {
 		case 1:
 			otherSpec.Naming[k] = "o" + strings.ToLower(k)
